@@ -593,6 +593,58 @@ pub fn exec(line: &str) -> String {
 }
 
 /// implementation-only oracles on one program
+/// the program without the calls that returned an error (a failed add_pointcloud / add_image goes with its body)
+pub fn strip_rejected(prog: &Program, results: &[String]) -> Program {
+    let res = |k: usize| results.get(k).map(|s| s.as_str()).unwrap_or("-");
+    let mut k = 0usize;
+    let mut stmts: Vec<Stmt> = vec![];
+    for s in &prog.stmts {
+        match s {
+            Stmt::Pc { guid, proto, body, end } => {
+                let r = res(k);
+                k += 1;
+                if r == "err" {
+                    k += body.len() + 1;
+                    continue;
+                }
+                let mut nb = vec![];
+                for b in body {
+                    if res(k) != "err" {
+                        nb.push(b.clone());
+                    }
+                    k += 1;
+                }
+                k += 1;
+                stmts.push(Stmt::Pc { guid: guid.clone(), proto: proto.clone(), body: nb, end: *end });
+            }
+            Stmt::Img { guid, body, end } => {
+                let r = res(k);
+                k += 1;
+                if r == "err" {
+                    k += body.len() + 1;
+                    continue;
+                }
+                let mut nb = vec![];
+                for b in body {
+                    if res(k) != "err" {
+                        nb.push(b.clone());
+                    }
+                    k += 1;
+                }
+                k += 1;
+                stmts.push(Stmt::Img { guid: guid.clone(), body: nb, end: *end });
+            }
+            other => {
+                if res(k) != "err" {
+                    stmts.push(other.clone());
+                }
+                k += 1;
+            }
+        }
+    }
+    Program { guid: prog.guid.clone(), stmts }
+}
+
 pub fn oracle_program(sink: &mut Sink, line: &str, prog: &Program, run: &Run) {
     sink.oracle_evals += 1;
     // ---- C10: totality and rejection rules
@@ -690,6 +742,15 @@ pub fn oracle_program(sink: &mut Sink, line: &str, prog: &Program, run: &Run) {
     }
     if run.panicked {
         return;
+    }
+    // ---- C10: a rejected call is a no-op — the same program without its rejected calls produces the same bytes
+    if run.results.iter().any(|r| r == "err") {
+        let stripped = strip_rejected(prog, &run.results);
+        let dev2 = SimDev::new(vec![]);
+        let run2 = execute(&stripped, &dev2);
+        if !run2.panicked && run2.file != run.file {
+            sink.fail("C10", "writer/rejected-call-leaves-traces", line, &format!("without its {} rejected call(s) the program writes a different file ({} vs {} bytes): a call that returned an error changed what is stored", run.results.iter().filter(|r| *r == "err").count(), run2.file.len(), run.file.len()));
+        }
     }
     // ---- round trip (C01/C04/C06/C14): only when the last statement is a successful finalize
     let last_fin_ok = matches!(prog.stmts.last(), Some(Stmt::Fin)) && run.results.last().map(|s| s == "ok").unwrap_or(false);
@@ -898,7 +959,10 @@ pub fn generate(sink: &mut Sink, seed: u64, thorough: bool) {
                 sink.fail("C10", "writer/xml-size-limit", &format!("xml-limit {n}"), "finalize succeeded but the file does not open");
             }
             sink.stat("xml_limit_case");
-            sink.case(line, run_line(&run), true);
+            // implementation-only: a 10 MiB string through the Lean writer model takes the better part of an
+            // hour (lists of characters); the model's rule is the one-line check in `EW.finalize` and the
+            // theorem `Session.finalize_xml_le`
+            let _ = line;
         }
     }
     // 3. packet boundary: clouds with exactly cap-1, cap, cap+1, 2cap+1 points for a few prototypes
